@@ -72,12 +72,13 @@ CHECKS = {
         "text": "Theorems C08_* (coq/Props/C08.v): in any state without an installed problem solve answers PlannerUninitialised (PRM: also "
                 "construct_roadmap), a PRM query on an empty roadmap answers UnsampledStateSpace, invalid starts answer InvalidStartState "
                 "(C01) and successful solves answer the latest problem (C02); for well-formed inputs (total samplers, goal bias in [0,1], "
-                "non-empty start list) no call of RRT / RRT-Connect ever panics or fails to return, for every call history (panics are "
-                "first-class outcomes of the model: unwrap, index, random_bool). Outside well-formedness the model - and the code - "
+                "non-empty start list) no call of RRT / RRT-Connect / RRT* ever panics or fails to return, for every call history (panics are "
+                "first-class outcomes of the model: unwrap, index, random_bool; RRT* never hangs for ANY sampler behaviour given distances "
+                ">= 0, not NaN), and a PRM query on a roadmap satisfying the C18 invariant always returns. Outside well-formedness the model - and the code - "
                 "panic: C08_refuted_* witnesses = the known findings. Correspondence on call scripts with sampler faults at the k-th call, "
                 "out-of-range bias and empty start lists: panic/no-panic and error kind must match the model.",
         "design_ref": "DESIGN.md section 7 C08, section 8 row 7",
-        "note": PLANNER_NOTE + " The never-panics theorem is proved for RRT and RRT-Connect; RRT* and PRM are covered by the correspondence and the panic-capturing oracle only.",
+        "note": PLANNER_NOTE + " PRM construction (sampler unwrap) is covered by the correspondence and the panic-capturing oracle; its query is proved total.",
         "technique": "Coq proof (panics as outcomes; invariant over API histories) + correspondence on fault-injected call scripts",
     },
     "C15": {
@@ -91,7 +92,7 @@ CHECKS = {
                 "chain of checked links. Correspondence: full tree snapshots (states, parents, cost bits) after every call must equal the "
                 "model's, bounded-depth per-iteration runs included; snapshot oracle on every real run.",
         "design_ref": "DESIGN.md section 7 C15",
-        "note": PLANNER_NOTE + " Termination of RRT* extraction is stated as 'some finite fuel suffices' (the code's loop is unbounded); the model's own fuel bound |tree|+1 is not proved sufficient.",
+        "note": PLANNER_NOTE + " The code's extraction loop is unbounded; the model's fuel |tree|+1 is proved sufficient on every reachable RRT* tree (pigeonhole on the acyclic parent chain), so the model never reports a hang where the code would terminate.",
         "technique": "Coq proof (tree invariants incl. float-level acyclicity of RRT* rewiring) + snapshot correspondence by vm_compute",
     },
     "C16": {
@@ -124,8 +125,8 @@ CHECKS = {
         "category": "proof",
         "text": "Partial. Proved on the model (coq/Props/C06.v): the deadline is consulted exactly once per iteration, at the loop top "
                 "(budget 0 answers Timeout without sampling; a budget n+k run is the budget-n run continued: an expired deadline is noticed "
-                "after at most the iteration in flight; same for PRM construction and the BFS loop); no false success for every world: a "
-                "returned path is sound (starts at the start, ends in the goal, every segment motion-checked), so sealed goals / sealed "
+                "after at most the iteration in flight; RRT, RRT*, RRT-Connect and PRM construction); no false success for every world, "
+                "history and planner (all four): a returned path is sound (starts at the start, ends in the goal, every segment motion-checked), so sealed goals / sealed "
                 "starts / invalid goal regions can only produce errors; one motion check costs num_steps validity queries, finite for a "
                 "positive resolution; C06_refuted_zero_resolution: resolution fraction 0 makes it 2^64-1 (known finding). Measured, not "
                 "proved: wall-clock overrun on real runs with time limits 0-100 ms (feasible and sealed-goal worlds, all planners and spaces).",
@@ -140,12 +141,13 @@ CHECKS = {
                 "its milestones are exactly the valid samples drawn, in order; a second construct_roadmap is the identity and "
                 "set_problem_definition changes only the problem; a successful query returns start :: walk along roadmap edges from a start "
                 "connection to a goal milestone; NoSolutionFound means no start connection, no goal milestone, or no goal milestone "
-                "graph-connected to a start connection (BFS completeness with the doubly seeded queue). Hop-minimality is NOT proved "
-                "(prm_minimal_partial): it is checked by an independent multi-source BFS on every real obstacle-free roadmap. "
+                "graph-connected to a start connection (BFS completeness with the doubly seeded queue); the returned chain has no more "
+                "milestones than ANY directed walk of the roadmap from a start connection to a goal milestone (C18_query_minimal, BFS "
+                "level invariant); an independent multi-source BFS re-checks hop-minimality on every real obstacle-free roadmap. "
                 "Correspondence: roadmap snapshots (states, adjacency lists in stored order) after every call.",
         "design_ref": "DESIGN.md section 7 C18",
         "note": PLANNER_NOTE + " HashMap is used only for keyed lookups (modelled as an association list).",
-        "technique": "Coq proof (roadmap invariant, BFS soundness and completeness) + snapshot correspondence by vm_compute",
+        "technique": "Coq proof (roadmap invariant, BFS soundness, completeness and hop-minimality) + snapshot correspondence by vm_compute",
     },
     "C04": {
         "category": "proof",
@@ -155,7 +157,9 @@ CHECKS = {
                 "under linear interpolation; SO(2) intervals of span <= PI are convex under short-arc interpolation. The property as stated "
                 "('intervals of any span, rotation cones') is FALSE of the code: C04_refuted_so2_span_gt_pi and C04_refuted_so3_cone are proved "
                 "witnesses; the SO(2) class is reproduced on the real planners (known finding). NOT proved: convexity of SO(3) cones of radius "
-                "< PI/2. Direct oracle: satisfies_bounds (+1e-9) on every state of every real path.",
+                "< PI/2. Direct oracles: satisfies_bounds (+1e-9) on every state of every real path; at the level of one space, interpolation "
+                "between two in-bounds states of a box / SO(2) interval of span <= PI stays inside (grid of interval ends incl. exact "
+                "half-turn ties + random), with the float interpolation tied bit-for-bit to the model.",
         "design_ref": "DESIGN.md section 7 C04, section 8 row 4",
         "note": PLANNER_NOTE + " 'Up to rounding': the float steering step is tied to the real convexity theorems only by the sampled oracle.",
         "technique": "Coq proof (region invariant over API histories + real-model convexity theorems, refutation witnesses) + correspondence",
